@@ -29,7 +29,7 @@ from operator import itemgetter, attrgetter
 from types import FunctionType, MethodType
 from typing import Any, Union, Literal  # When python 3.9 support is dropped replace Union with |
 
-from contextlib import contextmanager
+from contextlib import contextmanager, nullcontext
 CRITICAL = 50
 ERROR = 40
 WARNING = 30
@@ -2688,11 +2688,16 @@ class Parameters:
         values = self_.values()
         restore = {k: values[k] for k, v in kwargs.items() if k in values}
 
+        # param.trigger re-assigns the current values: that is not an
+        # assignment by the user, a parameter that follows a reference
+        # keeps following it
+        triggering = self_._TRIGGER and self_.self is not None
         try:
-            for (k, v) in kwargs.items():
-                if k not in self_:
-                    raise ValueError(f"{k!r} is not a parameter of {self_.cls.__name__}")
-                setattr(self_or_cls, k, v)
+            with (_syncing(self_.self, kwargs) if triggering else nullcontext()):
+                for (k, v) in kwargs.items():
+                    if k not in self_:
+                        raise ValueError(f"{k!r} is not a parameter of {self_.cls.__name__}")
+                    setattr(self_or_cls, k, v)
         finally:
             # Also on failure: restore the batching state that was in
             # effect, announce the changes already applied and let
